@@ -232,6 +232,7 @@ def check_case(c):
             img = rng.normal(size=shape).astype(np.float32)
             path = os.path.join(d, "im.fits")
             skyimg.write_fits(path, img, hdr, dtype=np.float32, rep=c.get("rep"))
+            img = np.squeeze(np.asarray(fits.getdata(path)))      # the image is what the file holds (scaled storage rounds)
             colmap = None
             if not cat:
                 res.label("empty-catalogue")
@@ -292,6 +293,7 @@ def check_case(c):
                 img = rng.normal(size=shape).astype(np.float32)
                 path = os.path.join(d, "im.fits")
                 skyimg.write_fits(path, img, hdr, dtype=np.float32, rep=c.get("rep"))
+                img = np.squeeze(np.asarray(fits.getdata(path)))
                 save_catalog(os.path.join(d, "cat.csv"), cat)
                 colmap, cargv = renamed_catalogue(os.path.join(d, "cat_comp.csv"), os.path.join(d, "cat_in.csv"), c.get("rename_mask", 0))
                 outf = os.path.join(d, "masked.fits")
